@@ -57,6 +57,13 @@ def checkHandlersOrder (j : Json) : Except String Verdict := do
   if jBoolD o "hang" false then
     return { nontrivial := true, mismatch := none, specfail := some s!"C07.no_deadlock: update, lookup and handler registration did not all finish: {ev}" }
   let idx (e : String) : Option Nat := ev.findIdx? (· == e)
+  if jStrD j "kind" "" = "lock-stress" then
+    -- a large response handled while the interest set of its type keeps changing: both sides finish (model: every lock
+    -- section is entered once and left, `lock_edges_ranked`)
+    let ok := jBoolD o "applied" false && jBoolD o "watchersDone" false
+    return { nontrivial := jNatD o "changes" 0 > 0
+             mismatch := if ok then none else some s!"lock stress ({jStrD j "rt" ""}, {n} names): model: the receiver's filter and the subscriptions always finish; impl: response applied={jBoolD o "applied" false}, subscriptions finished={jBoolD o "watchersDone" false}"
+             specfail := if ok then none else some s!"C07.deadlock_free: a response with {n} subscribed names of type {jStrD j "rt" ""} was being filtered while subscriptions of that type changed; after six seconds the response is not applied / the subscribing callers have not returned: {jStrD o "state" ""}" }
   if jStrD j "kind" "" = "dump" then
     -- a dump parked while it renders the cache, an update of the same type: they exclude each other (manager lock)
     let sf : Option String :=
